@@ -3,7 +3,9 @@
 \* labelled edges for the multi-process replay. 2 resolver fields, 2 edit records, helper {h}, import {alias}, root
 \* struct customisation {rf}, histories <= 4 (so that the state after a Generate at depth 3 still has its own Generate
 \* edge = the idempotence prediction).
-\* Measured: 9 708 states, 29 433 edges, 6 initial states, 20 s (4 configurations, no root struct: 4 528 / 13 846, 7 s).
+\* Round 5: + (single, single, exec): autobind lists the exec package, schema types Config / ResolverRoot.
+\* Measured: 10 164 states, 31 113 edges, 7 initial states, 21 s (6 configurations: 9 708 / 29 433; 4 configurations,
+\* no root struct: 4 528 / 13 846, 7 s).
 INIT Init
 NEXT Next
 CONSTANTS
